@@ -28,7 +28,7 @@ class C01(EngineACheck):
     def run_one(self, ch: Choices) -> RunOutcome:
         out = RunOutcome()
         cfg = GenConfig(
-            features=set(ALL_FEATURES) | ({"lets"} if ch.coin(0.5, "lets-feature") else set()),
+            features=set(ALL_FEATURES) | {"condn"} | ({"lets"} if ch.coin(0.5, "lets-feature") else set()),
             p_error=0.4,
             multi_error=bool(ch.choice(4, "multi-error") == 3),
             modes=("thread", "thread", "process", "async"),
